@@ -43,11 +43,26 @@ def _traj(case):
     kw = {}
     if case["timekind"] != "default":
         kw["time"] = np.array(case["times"], dtype=np.float64) * 1e-3
-    t = md.Trajectory(xyz, _top(case["na"]), **kw)
+    history = (case["na"] * 7 + case["nf"] * 3 + len(case["ext"]) + len(case["cellkind"])) % 2 == 1
+    if not history:
+        t = md.Trajectory(xyz, _top(case["na"]), **kw)
+        if case["cellkind"] != "none":
+            c = np.array(case["cells"], dtype=np.float64)
+            t.unitcell_lengths = (c[:, :3] * U).astype(np.float32)
+            t.unitcell_angles = c[:, 3:].astype(np.float32)
+        return t
+    # the same trajectory reached through a history: built with other coordinates and another cell, looked at (box vectors, volumes,
+    # a first save of another state is what an analysis script does), then edited IN PLACE to the intended state -- the arrays a
+    # Trajectory hands out are its own, subscript assignment goes through no setter; what is saved is the state at the time of saving
+    t = md.Trajectory(xyz * np.float32(0.5) + np.float32(0.25), _top(case["na"]), **kw)
     if case["cellkind"] != "none":
         c = np.array(case["cells"], dtype=np.float64)
-        t.unitcell_lengths = (c[:, :3] * U).astype(np.float32)
-        t.unitcell_angles = c[:, 3:].astype(np.float32)
+        t.unitcell_lengths = (c[:, :3] * U * 1.25 + 0.5).astype(np.float32)
+        t.unitcell_angles = np.full((len(c), 3), 90.0, dtype=np.float32)
+        _ = t.unitcell_vectors, t.unitcell_volumes
+        t.unitcell_lengths[...] = (c[:, :3] * U).astype(np.float32)
+        t.unitcell_angles[...] = c[:, 3:].astype(np.float32)
+    t.xyz[...] = xyz
     return t
 
 
